@@ -106,32 +106,29 @@ def calibration_programs():
 
 
 def _solve(target, base, sizes):
-    """counts of statements such that base + sum(counts*sizes) == target, mostly of kind 0; None if impossible"""
+    """statement counts with base + sum(counts*sizes) == target, mostly of kind 0 and with as few others as possible"""
     a = sizes[0]
-    if a is None or a <= 0:
+    if not a or a <= 0:
         return None
-    others = [(k, s) for k, s in enumerate(sizes) if k and s and s > 0 and s != a]
     need = target - base
-    for extra in range(0, 40):                  # number of non-kind-0 statements
-        # try combinations of up to two other kinds
-        for k1, s1 in [(0, 0)] + others:
-            for n1 in range(0, extra + 1):
-                for k2, s2 in [(0, 0)] + others:
-                    n2 = extra - n1
+    others = [(k, sz) for k, sz in enumerate(sizes) if k and sz and sz > 0]
+    best = None
+    for i, (k1, s1) in enumerate(others or [(0, 0)]):
+        for (k2, s2) in (others[i:] or [(0, 0)]):
+            for n1 in range(0, 24):
+                for n2 in range(0, 24):
+                    if (k1 == k2 and n2) or (not k1 and (n1 or n2)):
+                        continue
                     rest = need - n1 * s1 - n2 * s2
-                    if rest >= 0 and rest % a == 0:
-                        counts = [0] * len(sizes)
-                        counts[0] = rest // a
+                    if rest >= 0 and rest % a == 0 and (best is None or n1 + n2 < best[0]):
+                        c = [0] * len(sizes)
+                        c[0] = rest // a
                         if k1:
-                            counts[k1] += n1
-                        elif n1:
-                            continue
+                            c[k1] += n1
                         if k2:
-                            counts[k2] += n2
-                        elif n2:
-                            continue
-                        return counts
-    return None
+                            c[k2] += n2
+                        best = (n1 + n2, c)
+    return best[1] if best else None
 
 
 def limit_programs(cal):
@@ -245,7 +242,7 @@ def interleave_program(rng, idx):
     ret = rng.choice([0, 0, 1, 3, 7, 42, 255])
     tail = ""
     if end < 0.15:
-        tail = "    assert (== r -12345)\n"
+        tail = "    assert (== r 123456789)\n"
         kinds.append("assert-fails")
     elif end < 0.3:
         tail = '    (print "no newline at the end %d")\n' % idx
